@@ -193,6 +193,10 @@ def run(ctx):
     ctx.rule("R6", "molecular-frame two-electron integrals are the tensor transform of the local ones for every orthogonal frame (all 100 + 10 packed elements); the quaternion frame is orthogonal with its first row on the bond vector on both charts")
     check_integral_rotation(ctx, "R6")
     _r4_euler_frames(ctx, repo)
+    ctx.rule("R7", "the p and d blocks of the spd rotation table (GenerateRotationMatrix) are orthogonal matrices for generic, planar and axial bond directions (interpreted, exact unit vectors) [EA+]")
+    from ..assembly import interpreted_d_rotation
+    for ok_, msg_ in interpreted_d_rotation(repo):
+        ctx.check(ok_, "R7", rd, rd.func("GenerateRotationMatrix"), "GenerateRotationMatrix", "orthogonality of the rotation blocks", msg_, msg_)
     from .c06 import one_center_first_principles
     one_center_first_principles(ctx, repo, "R5")
     from .c19 import check_pair_predicate
